@@ -382,7 +382,8 @@ func c12(run *ev.Run, tier string) {
 					sort.Strings(inflight)
 					overlapSets[strings.Join(dedupe(inflight), "+")] = true
 				}
-				run.Case(fmt.Sprintf("%d|%d|%s|%d|%d", g, k.c, k.s, k.rp, e.G), len(inflight) > 0)
+				// distinct = distinct (GOMAXPROCS, scenario, format, set of formats in flight with it)
+				run.Case(fmt.Sprintf("%d|%s|%s|%s", g, k.s, e.Format, strings.Join(dedupe(inflight), "+")), len(inflight) > 0)
 				d := map[string]any{"gomaxprocs": g, "config": k.c, "scenario": k.s, "rep": k.rp, "goroutine": e.G, "format": e.Format, "command": cmdline}
 				if e.Err != "" {
 					d["error"] = ev.Short(e.Err, 500)
